@@ -18,8 +18,14 @@ int main(int argc, char** argv)
         Program P = gen_program(R.rng, fam, mut, allowed);
         if (rendezvous) {
             P.scripts.clear();
-            P.scripts.push_back({POp{LOCK_SH, 1, 0, 0}});
-            P.scripts.push_back({POp{LOCK_SH, 2, 0, 0}});
+            static const int rv_forms[] = {LOCK_SH, CONST_LOCK, TRY_SH, TRY_SH_FOR, TRY_SH_UNTIL, READ, READ_RET};
+            for (uint32_t t = 1; t <= 2; t++) {
+                int f;
+                do {
+                    f = rv_forms[R.rng.below(7)];
+                } while (!supported(fam, mut == 3, f));
+                P.scripts.push_back({POp{f, t, 0, 50000}});
+            }
         }
         RoundOut o = dispatch<RunRound>(fam, mut, R, P, false, rendezvous);
         if (rendezvous) {
